@@ -142,6 +142,7 @@ struct LinCommon : TPBase
       case 7: x[size_t(j)] = 1e3 * u; break;            // large
       default: x[size_t(j)] = c * (1 + 1e-9); break;    // a few hundred ulps from the minimiser
       }
+      x[size_t(j)] = snap(x[size_t(j)]);
     }
     return x;
   }
